@@ -62,7 +62,15 @@ fn cycle_refs<T>(this: Link<T>) -> HashMap<Link<T>, usize> {
         #[cfg(cactusref_verif)]
         crate::verif::bump(&crate::verif::TRACE_SCANNED, links.iter().len());
         for (&link, &strong) in links.iter() {
-            if let Kind::Forward | Kind::Loopback = link.kind() {
+            if let Kind::Loopback = link.kind() {
+                // Self-adoptions have no effect: a loopback link records an
+                // adoption of an `Rc` by itself through the same handle, which
+                // does not correspond to an owned reference. Following it would
+                // visit this node a second time under a different key and count
+                // all of its adoptions twice.
+                continue;
+            }
+            if let Kind::Forward = link.kind() {
                 cycle_owned_refs
                     .entry(link)
                     .and_modify(|count| *count += strong)
